@@ -384,7 +384,7 @@ def _load_step(
             structure.ErrorStep(
                 label=step_label,
                 outcome=PermFail(
-                    message=f"Step '{step_label}', must come after {', '.join(out_of_order_steps)}.",
+                    message=f"Step '{step_label}', must come after {', '.join(f'{step}' for step in out_of_order_steps)}.",
                     location=step_location,
                 ),
                 condition=None,
